@@ -375,37 +375,70 @@ theorem addTriangle_spec (s : LState) (f attach : Nat) (h : LInv s) (_ha : attac
       Nat.le_refl _⟩
   · exact triNew_spec s f attach h _ha
 
+/-- the step shared by `addFree` and `addVanished`: wrap node 0 in a new And root if there is no
+root yet, then hang the triangle of `f` under the root -/
+def wrapTri (s : LState) (root f : Nat) : LState × Nat :=
+  let (s, root) :=
+    if root == 0 then
+      let (g, r) := s.g.addNode .and
+      ({ s with g := g.addEdge r 0 }, r)
+    else (s, root)
+  (s.addTriangle f root, root)
+
+/-- the invariant of the folds of `addFree` and `addVanished` (`n` = number of nodes at the start) -/
+def RootInv (n : Nat) (acc : LState × Nat) : Prop :=
+  LInv acc.1 ∧ n ≤ acc.1.g.kind.size ∧ (acc.2 = 0 ∨ acc.2 < acc.1.g.kind.size)
+
+theorem wrapTri_spec (n : Nat) (s' : LState) (root f : Nat) (hacc : RootInv n (s', root)) :
+    RootInv n (wrapTri s' root f) := by
+  unfold wrapTri RootInv at *
+  dsimp only at hacc ⊢
+  by_cases hr : (root == 0) = true
+  · simp only [hr, if_true]
+    have hsz := addNode_size s'.g .and
+    have hw : WFn (s'.g.kind.size + 1) ((s'.g.addNode .and).1.addEdge (s'.g.addNode .and).2 0) :=
+      addEdge_wfn _ _ _ _ ⟨addNode_wf _ _ hacc.1.wf, hsz⟩ (Nat.succ_pos _)
+    have h1 : LInv { s' with g := (s'.g.addNode .and).1.addEdge (s'.g.addNode .and).2 0 } :=
+      hacc.1.setG _ hw.1 (by rw [hw.2]; exact Nat.le_succ _)
+    have hlt : s'.g.kind.size < ((s'.g.addNode .and).1.addEdge (s'.g.addNode .and).2 0).kind.size := by
+      rw [hw.2]; exact Nat.lt_succ_self _
+    have ht := addTriangle_spec _ f (s'.g.addNode .and).2 h1 hlt
+    refine ⟨ht.1, ?_, Or.inr ?_⟩
+    · exact Nat.le_trans hacc.2.1 (Nat.le_trans (Nat.le_of_lt hlt) ht.2)
+    · exact Nat.lt_of_lt_of_le hlt ht.2
+  · simp only [hr]
+    have hroot : root < s'.g.kind.size := by
+      rcases hacc.2.2 with e | h'
+      · subst e; simp at hr
+      · exact h'
+    have ht := addTriangle_spec s' f root hacc.1 hroot
+    exact ⟨ht.1, Nat.le_trans hacc.2.1 ht.2, Or.inr (Nat.lt_of_lt_of_le hroot ht.2)⟩
+
 theorem addFree_spec (s : LState) (h : LInv s) :
     LInv (addFree s).1 ∧ s.g.kind.size ≤ (addFree s).1.g.kind.size ∧
       ((addFree s).2 = 0 ∨ (addFree s).2 < (addFree s).1.g.kind.size) := by
   unfold addFree
-  refine foldl_inv (fun (acc : LState × Nat) => LInv acc.1 ∧ s.g.kind.size ≤ acc.1.g.kind.size ∧
-    (acc.2 = 0 ∨ acc.2 < acc.1.g.kind.size)) _ _ ?_ (s, 0) ⟨h, Nat.le_refl _, Or.inl rfl⟩
+  refine foldl_inv (RootInv s.g.kind.size) _ _ ?_ (s, 0) ⟨h, Nat.le_refl _, Or.inl rfl⟩
   intro acc k _ hacc
   obtain ⟨s', root⟩ := acc
-  dsimp only at hacc ⊢
+  dsimp only
   split
   · exact hacc
-  · by_cases hr : (root == 0) = true
-    · simp only [hr, if_true]
-      have hsz := addNode_size s'.g .and
-      have hw : WFn (s'.g.kind.size + 1) ((s'.g.addNode .and).1.addEdge (s'.g.addNode .and).2 0) :=
-        addEdge_wfn _ _ _ _ ⟨addNode_wf _ _ hacc.1.wf, hsz⟩ (Nat.succ_pos _)
-      have h1 : LInv { s' with g := (s'.g.addNode .and).1.addEdge (s'.g.addNode .and).2 0 } :=
-        hacc.1.setG _ hw.1 (by rw [hw.2]; exact Nat.le_succ _)
-      have hlt : s'.g.kind.size < ((s'.g.addNode .and).1.addEdge (s'.g.addNode .and).2 0).kind.size := by
-        rw [hw.2]; exact Nat.lt_succ_self _
-      have ht := addTriangle_spec _ (k + 1) (s'.g.addNode .and).2 h1 hlt
-      refine ⟨ht.1, ?_, Or.inr ?_⟩
-      · exact Nat.le_trans hacc.2.1 (Nat.le_trans (Nat.le_of_lt hlt) ht.2)
-      · exact Nat.lt_of_lt_of_le hlt ht.2
-    · simp only [hr]
-      have hroot : root < s'.g.kind.size := by
-        rcases hacc.2.2 with e | h'
-        · subst e; simp at hr
-        · exact h'
-      have ht := addTriangle_spec s' (k + 1) root hacc.1 hroot
-      exact ⟨ht.1, Nat.le_trans hacc.2.1 ht.2, Or.inr (Nat.lt_of_lt_of_le hroot ht.2)⟩
+  · exact wrapTri_spec _ s' root (k + 1) hacc
+
+/-- `addVanished` keeps the invariant of the loader state; the root it returns is 0 or a node -/
+theorem addVanished_spec (s : LState) (root : Nat) (h : LInv s) (hr : root = 0 ∨ root < s.g.kind.size) :
+    LInv (addVanished s root).1 ∧ s.g.kind.size ≤ (addVanished s root).1.g.kind.size ∧
+      ((addVanished s root).2 = 0 ∨ (addVanished s root).2 < (addVanished s root).1.g.kind.size) := by
+  unfold addVanished
+  dsimp only
+  refine foldl_inv (RootInv s.g.kind.size) _ _ ?_ (s, root) ⟨h, Nat.le_refl _, hr⟩
+  intro acc k _ hacc
+  obtain ⟨s', root'⟩ := acc
+  dsimp only
+  split
+  · exact hacc
+  · exact wrapTri_spec _ s' root' (k + 1) hacc
 
 theorem balance_spec (sorted : Bool) (h : List Nat → List Nat) (s : LState) (nx : Nat)
     (work : List (Nat × List Nat)) (hs : LInv s) (_hnx : nx < s.g.kind.size)
@@ -460,13 +493,14 @@ theorem smooth_spec (sorted : Bool) (h : List Nat → List Nat) (s : LState) (ro
 
 /-! ### the graph that is flattened -/
 
-/-- the graph after all phases, and the root the flattening starts from -/
+/-- the graph after all phases, and the root the flattening starts from (the root `addVanished` returns) -/
 def loadGraph (sorted : Bool) (h : List Nat → List Nat) (lines : List Line) (totalFeatures : Nat) : G × Nat :=
   let s0 : LState := { total := totalFeatures }
   let s1 := lines.foldl stepLine s0
   let (s2, root) := addFree s1
   let g3 := eliminate s2.g root
-  let s4 := smooth sorted h { s2 with g := g3 } root
+  let (s3, root) := addVanished { s2 with g := g3 } root
+  let s4 := smooth sorted h s3 root
   (s4.g, root)
 
 theorem loadWith_nodes (sorted : Bool) (h : List Nat → List Nat) (lines : List Line) (total : Nat) :
@@ -504,14 +538,18 @@ theorem loadGraph_spec (sorted : Bool) (h : List Nat → List Nat) (lines : List
   dsimp only at h2 ⊢
   have h3 := eliminate_wfn s2.g.kind.size s2.g root ⟨h2.1.wf, rfl⟩
   have h3' : LInv { s2 with g := eliminate s2.g root } := h2.1.setG _ h3.1 (by rw [h3.2]; exact Nat.le_refl _)
-  have h4 := smooth_spec sorted h _ root h3'
-  have h4sz : s2.g.kind.size ≤ (smooth sorted h { s2 with g := eliminate s2.g root } root).g.kind.size := by
-    have : ({ s2 with g := eliminate s2.g root } : LState).g.kind.size = s2.g.kind.size := h3.2
-    exact this ▸ h4.2
+  have h3sz : ({ s2 with g := eliminate s2.g root } : LState).g.kind.size = s2.g.kind.size := h3.2
+  have h3b := addVanished_spec _ root h3' (by rw [h3sz]; exact h2.2.2)
+  rw [h3sz] at h3b
+  generalize addVanished { s2 with g := eliminate s2.g root } root = q at h3b ⊢
+  obtain ⟨s3, root'⟩ := q
+  dsimp only at h3b ⊢
+  have h4 := smooth_spec sorted h s3 root' h3b.1
+  have h4sz : s2.g.kind.size ≤ (smooth sorted h s3 root').g.kind.size := Nat.le_trans h3b.2.1 h4.2
   refine ⟨h4.1.wf, Nat.le_trans h2.2.1 h4sz, ?_⟩
-  rcases h2.2.2 with e | hlt
+  rcases h3b.2.2 with e | hlt
   · exact Or.inl e
-  · exact Or.inr (Nat.lt_of_lt_of_le hlt h4sz)
+  · exact Or.inr (Nat.lt_of_lt_of_le hlt h4.2)
 
 /-- C01, every input: all edges of the graph that is flattened point into the node array -/
 theorem loadGraph_edges (sorted : Bool) (h : List Nat → List Nat) (lines : List Line) (total : Nat) :
